@@ -33,17 +33,17 @@ type Expr struct {
 	Args []*Expr
 }
 
-func Lit(n int) *Expr           { return &Expr{K: ELit, N: n} }
-func Var(n string) *Expr        { return &Expr{K: EVar, Name: n} }
-func Add(a, b *Expr) *Expr      { return &Expr{K: EAdd, A: a, B: b} }
-func Eq(a, b *Expr) *Expr       { return &Expr{K: EEq, A: a, B: b} }
-func Lt(a, b *Expr) *Expr       { return &Expr{K: ELt, A: a, B: b} }
-func Not(a *Expr) *Expr         { return &Expr{K: ENot, A: a} }
-func And(a, b *Expr) *Expr      { return &Expr{K: EAnd, A: a, B: b} }
-func Or(a, b *Expr) *Expr       { return &Expr{K: EOr, A: a, B: b} }
-func Idx(a, b *Expr) *Expr      { return &Expr{K: EIdx, A: a, B: b} }
-func Nil() *Expr                { return &Expr{K: ENil} }
-func Arr(xs ...*Expr) *Expr     { return &Expr{K: EArr, Args: xs} }
+func Lit(n int) *Expr                 { return &Expr{K: ELit, N: n} }
+func Var(n string) *Expr              { return &Expr{K: EVar, Name: n} }
+func Add(a, b *Expr) *Expr            { return &Expr{K: EAdd, A: a, B: b} }
+func Eq(a, b *Expr) *Expr             { return &Expr{K: EEq, A: a, B: b} }
+func Lt(a, b *Expr) *Expr             { return &Expr{K: ELt, A: a, B: b} }
+func Not(a *Expr) *Expr               { return &Expr{K: ENot, A: a} }
+func And(a, b *Expr) *Expr            { return &Expr{K: EAnd, A: a, B: b} }
+func Or(a, b *Expr) *Expr             { return &Expr{K: EOr, A: a, B: b} }
+func Idx(a, b *Expr) *Expr            { return &Expr{K: EIdx, A: a, B: b} }
+func Nil() *Expr                      { return &Expr{K: ENil} }
+func Arr(xs ...*Expr) *Expr           { return &Expr{K: EArr, Args: xs} }
 func Call(f string, a ...*Expr) *Expr { return &Expr{K: ECall, Name: f, Args: a} }
 
 func atom(e *Expr) bool {
